@@ -45,6 +45,10 @@ SP_INT = {"$spec": {"t": "int"}}
 SP_INT1 = {"$spec": {"t": "int", "value": 1}}
 SP_STR = {"$spec": {"t": "str", "value": "a"}}
 SP_ANY = {"$spec": {"t": "any", "alts": [{"t": "int"}, {"t": "none"}]}}
+SP_ANYBARE = {"$spec": {"t": "any"}}        # accepts every value (the Ellipsis object included)
+# the version digit says 4, the variant bits are not RFC 4122's (UUID.version is None for them)
+U4_NCS = uuid.UUID("00000000-0000-4000-0000-000000000000")
+U4_MS = uuid.UUID("12345678-1234-4234-c234-123456789abc")
 
 LEN1 = [[0], [1], [2], [3], [-1], [True], [2 ** 63], [1.5], ["2"], [None], [NIL], [E]]
 LEN2 = [[0, E], [2, E], [3, E], [E, 0], [E, 2], [E, 3], [1, 2], [2, 2], [3, 1], [-1, E], [E, -1],
@@ -74,6 +78,7 @@ UNIVERSE = {
                        [Zoo("re_compiled_icase")], ["x{2}"]]),
     "list": _calls("__call__", [[[]], [[SP_INT1]], [[SP_INT1, SP_STR]], [[SP_INT, E]], [[E, SP_INT]],
                                 [[E, SP_INT, E]], [[E]], [[E, E]], [[SP_INT, E, SP_INT]],
+                                [[SP_ANYBARE, SP_INT1]], [[SP_INT1, SP_ANYBARE]], [[SP_INT, SP_STR]], [[SP_ANYBARE, E]],
                                 [[E, E, E]], [SP_INT], [SP_ANY], [[1]], [[None]], [(SP_INT,)],
                                 [None], ["ab"], [{}], [E], [NIL], [[[SP_INT]]]])
     + _calls("len", LEN1 + LEN2),
@@ -88,7 +93,7 @@ UNIVERSE = {
                                [None], [E], [[SP_INT]], [NIL], [SP_INT, E]]),
     "bytes": _calls("__call__", [[b"ab"], [b""], ["ab"], [Zoo("bytearray")], [Zoo("bytes_subclass")],
                                  [None], [1], [E]]),
-    "uuid4": _calls("__call__", [[U4], [U1], [Zoo("uuid_nil")], [str(U4)], [None], [1], [E]]),
+    "uuid4": _calls("__call__", [[U4], [U1], [U4_NCS], [U4_MS], [Zoo("uuid_nil")], [str(U4)], [None], [1], [E]]),
     "datetime": _calls("__call__", [[DT], [D], [DT.isoformat()], [None], [0], [E],
                                     [Zoo("datetime_aware")]]),
     "date": _calls("__call__", [[D], [DT], ["2020-01-02"], [None], [0], [E]]),
@@ -154,8 +159,11 @@ def _r(x):
 
 
 def _fixed_list_value(s):
-    """list schema with only fixed-value elements and no `...` -> the list of those values"""
+    """list schema whose element list is fully fixed (no `...`) -> the list of the elements' fixed values; an
+    element without a fixed value contributes a value it accepts (generated from it under a fixed seed)"""
+    from d42 import fake, validate
     from niltype import Nil
+    from .. import rng
     el = s.props.get("elements")
     if el is Nil or any(x is Ellipsis for x in el):
         return None
@@ -163,7 +171,13 @@ def _fixed_list_value(s):
     for x in el:
         v = x.props.get("value")
         if v is Nil:
-            return None
+            try:
+                with rng.seeded(5):
+                    v = fake(x)
+                if validate(x, v).has_errors():
+                    return None
+            except Exception:  # noqa  (C01's business)
+                return None
         out.append(v)
     return out
 
